@@ -102,6 +102,11 @@ func (u *User) hasFilePermission(cleanPath, permissionType string) (bool, error)
 	return hasPermission, nil
 }
 
+// isPermissionType tells whether the string is the name of a permission type.
+func isPermissionType(s string) bool {
+	return s == "readfiles"
+}
+
 func (u *User) iteratePaths(cleanPath, permissionType string) (bool, error) {
 	// By default assume no permissions
 	hasPermission := false
@@ -110,10 +115,11 @@ func (u *User) iteratePaths(cleanPath, permissionType string) (bool, error) {
 		var regexStr string
 		var negate bool
 
-		splitted := strings.Split(permission, ":")
-		if len(splitted) > 1 {
-			typeStr = splitted[0]
-			permission = strings.Join(splitted[1:], ":")
+		// A rule may carry its permission type as prefix ("readfiles:..."). Only a known
+		// type name is a prefix: a bare regex may contain colons as well ([[:alpha:]]).
+		if i := strings.Index(permission, ":"); i > 0 && isPermissionType(permission[:i]) {
+			typeStr = permission[:i]
+			permission = permission[i+1:]
 		}
 
 		dlog.Server.Debug(u, cleanPath, typeStr, permission)
